@@ -7,4 +7,8 @@ def classify(sig, what):
         return 'PM1: a map whose values are a discriminated base type (additionalProperties: {$ref: Pet}, as a definition or as a property) is generated as map[string]Pet with no custom unmarshaller: encoding/json cannot decode an object into the interface type Pet, so every document with an entry is rejected. (Arrays of base types get an Unmarshal<T>Slice helper; maps have no counterpart.)'
     if sig.startswith('lossy') and sig.endswith('bignum'):
         return 'LN1: values of undeclared properties kept by additionalProperties:true are decoded with plain json.Unmarshal into interface{} (float64): an integer that float64 cannot represent (9007199254740993) comes back changed (…992). Tuples and untyped properties use UseNumber; the additionalProperties serializer does not.'
+    if sig.startswith('panic ') and '>allOf' in sig:
+        return 'A3 (see C02): the validator of an inline allOf used as a property dereferences the nil pointer of an optional member with maximum: 0; the round-trip driver calls Validate after decoding, so the panic shows here too.'
+    if sig.startswith('lossy') and '>allOf' in sig and '(only right)' in what and 'null' in what:
+        return 'Z2: an OPTIONAL property whose schema is an inline allOf is generated as a non-pointer anonymous struct; encoding/json cannot omit it, so a document without the property is re-encoded with it, its required members rendered as null ({"p":{"z":null}}): a key the document did not have, holding a value the schema rejects.'
     return None
